@@ -31,9 +31,10 @@ struct State
     long payload_live = 0;          // tracked payloads (ids) currently owned by some object
     long cvec_hard = 0, cvec_soft = 0;
     std::string cvec_msg;
+    long epoch = 0;                 // incremented for every parse call made by the driver
     void reset()
     {
-        ev.clear(); next_id = 1; copies = 0; moves = 0;
+        ev.clear(); next_id = 1; copies = 0; moves = 0; ++epoch;
     }
     long fresh() { return next_id++; }
 };
@@ -347,9 +348,14 @@ template<class It> long iter_offset(const It& it)
 
 struct ScriptLexer
 {
+    // a custom lexer may keep working state in members (match is not const): a lexer object that survives from one parse call to
+    // another would carry that state over, which the monitor makes visible
+    long epoch_seen = 0;
     template<class It, class ES>
     ctpg::recognized_term match(ctpg::match_options, ctpg::source_point sp, It start, It end, ES&)
     {
+        if (epoch_seen && epoch_seen != S.epoch) S.ev += "LEXER-OBJECT-REUSED-ACROSS-PARSE-CALLS;";
+        epoch_seen = S.epoch;
         S.ev += "L";
         if (start == end) { S.ev += "@end->fail;"; return ctpg::recognized_term{}; }
         long off = iter_offset(start);
